@@ -610,6 +610,19 @@ def check_fragmenter(case) -> Result:
         r.fail('a query leaves the object it is called on observably unchanged', 'C08/mutates-argument/Fragmenter.fragment/fragmenter-state', **ctx)
     if snap(given) != before:
         r.fail('a query leaves its annotation argument observably unchanged', 'C08/mutates-argument/Fragmenter/annotation', **ctx)
+        return r
+    # the Fragmenter is a result too: it shares nothing with the annotation it was built from, in either direction
+    if case['edit']:
+        fr2 = pt.Fragmenter(given, monoisotopic=case['mono'])
+        scribble(given)  # the caller goes on working with his annotation
+        third = fr2.fragment(**copy.deepcopy(kb))
+        if norm(third) != norm(exp):
+            r.fail('results share no mutable state with the arguments', 'C08/result-shares-state/Fragmenter/follows-later-edits-of-the-annotation', **ctx)
+        given2 = pt.parse(s)
+        fr3 = pt.Fragmenter(given2, monoisotopic=case['mono'])
+        scribble(fr3.annotation)
+        if snap(given2) != before:
+            r.fail('editing a result never changes what was passed in', 'C08/result-shares-state/Fragmenter/annotation', **ctx)
     return r
 
 
